@@ -18,8 +18,55 @@ KIND_SHAPES = {
 RESTRICTED = {"clip33": {"flatten", "reshape"}}
 
 
+def denote_args(op, v):
+    """the step in the vocabulary of the reference semantics (Denote.RunProg): the driver reads op/variant, the specification op/args"""
+    E = []
+    if op == "transpose": return dict(axes=E)
+    if op == "flip": return dict(axis=[[0]], int=True) if v == 0 else dict(axis=E, int=False)
+    if op == "sum": return dict(axis=[[0]] if v in (0, 1) else [[-1]], axis_int=True, initial=E, keepdims="T" if v == 1 else "F")
+    if op == "tile": return dict(reps=[2])
+    if op == "expand_dims": return dict(axis=[0], int=True)
+    if op == "reshape": return dict(dst=[-1])
+    return dict(none=True)
+
+
+KINDS2 = ["dyn", "const23", "fixdim2", "bounddim3", "clip33", "clip46", "boundsize6"]
+FORMS2 = [("concatenate", "rt0", dict(axis=[0])), ("concatenate", "ct0", dict(axis=[0])), ("concatenate", "rtm1", dict(axis=[-1])), ("concatenate", "none", dict(axis=[])),
+          ("add", "-", dict(none=True)), ("stack", "-", dict(axis=0))]
+SHAPES2 = {"dyn": [[2, 3], [3, 3], [1, 3], [2, 1]], "const23": [[2, 3]], "fixdim2": [[2, 3], [3, 3], [1, 3], [3, 1], [2, 2]], "bounddim3": [[2, 3], [3, 3], [3]],
+           "clip33": [[a, b] for a in (1, 2, 3) for b in (1, 2, 3)], "clip46": [[a, b] for a in (1, 2, 3, 4) for b in (1, 2, 3, 6)], "boundsize6": [[2, 3], [1, 3], [3, 1], [2, 2]]}
+
+
+def pair_valid(op, form, sa, sb):
+    if op == "add":
+        n = max(len(sa), len(sb)); a = [1] * (n - len(sa)) + sa; b = [1] * (n - len(sb)) + sb
+        return all(x == y or x == 1 or y == 1 for x, y in zip(a, b))
+    if op == "stack": return sa == sb
+    if form == "none": return True
+    if len(sa) != len(sb): return False
+    ax = 0 if form in ("rt0", "ct0") else len(sa) - 1
+    return all(i == ax or x == y for i, (x, y) in enumerate(zip(sa, sb)))
+
+
+def pair_cases(start):
+    """binary views over two leaves of every pair of static-knowledge kinds that compiles (harness/drivers/static2_combos.inc)"""
+    import re
+    combos = [tuple(map(int, m)) for m in re.findall(r"COMBO\((\d+), (\d+), (\d+)\)", open(os.path.join(vlib.ROOT, "harness", "drivers", "static2_combos.inc")).read())]
+    out = {i: [] for i in range(len(KINDS2))}
+    n = start
+    for a, b, f in combos:
+        op, form, args = FORMS2[f]
+        if form == "rtm1": continue        # concatenate does not normalise a negative axis (known finding of C04): not a static-information question
+        for sa in SHAPES2[KINDS2[a]]:
+            for sb in SHAPES2[KINDS2[b]]:
+                if not pair_valid(op, form, sa, sb): continue
+                n += 1
+                out[a].append(dict(id=n, op=op, kinds=[KINDS2[a], KINDS2[b]], shapes=[sa, sb], args=dict(args, form=form)))
+    return out
+
+
 def programs(maxd):
-    steps = [dict(op=o, variant=v) for o in OPS for v in VARIANTS[o]]
+    steps = [dict(op=o, variant=v, args=denote_args(o, v), shapes=[[]]) for o in OPS for v in VARIANTS[o]]
     out = [[s] for s in steps]
     if maxd >= 2: out += [[a, b] for a in steps for b in steps]
     return out
@@ -55,13 +102,21 @@ def run(tier, seed):
             for shp in shapes:
                 if not stays_array(shp, p): continue
                 n += 1
-                by_first[OPS.index(p[0]["op"])].append(dict(id=n, kind=kind, shapes=[shp], prog=p))
+                by_first[OPS.index(p[0]["op"])].append(dict(id=n, op="program", kind=kind, shapes=[shp], prog=p, args=dict(none=True)))
     total = 0
     for i, cases in by_first.items():
         if not cases: continue
         files = vlib.run_driver(bins[i], cases, ck.workdir, f"static{i}", nproc=max(2, vlib.NCPU // 3))
         mism, st = vlib.validate_traces("TraceStatic", files)
         ck.add_trace_stats(st, len(cases)); total += len(cases)
+        # "nothing is clipped": the object must also be the view the reference semantics defines (shape and every element)
+        mism2, st2 = vlib.validate_traces("TraceOps", files)
+        ck.add_trace_stats(st2, 0)
+        seen = {m["event"].get("id") for m in mism}
+        for m in mism2:
+            if m["event"].get("id") not in seen:
+                m["why"] = "the object is not the view the reference semantics defines (shape or elements differ: clipped or mis-inferred result)"
+                mism.append(m)
         for m in mism:
             ev = m["event"]; res = ev.get("res", {})
             if str(res.get("crash", "")).startswith("driver:"):
@@ -75,12 +130,38 @@ def run(tier, seed):
             key = canon([case.get("kind"), case.get("shapes"), case.get("prog"), kindf])
             ck.mismatch(key, kindf, case, m["expect"], {k: res.get(k) for k in ("traits", "shape", "dim", "size", "eval_shape", "eval_traits", "crash")},
                         what=f"static information of {'>'.join(s['op'] for s in case.get('prog', []))} over a {case.get('kind')} leaf: {m['why']}", driver=os.path.basename(bins[i]))
+    # binary views over pairs of leaf kinds
+    pairs = pair_cases(n)
+    pbins = vlib.build_drivers([dict(name="drv_static2", flags=(f"-DFIRST_KIND={i}", "-O0"), tag=f"_k{i}") for i in range(len(KINDS2))])
+    for i, cases in pairs.items():
+        if not cases: continue
+        files = vlib.run_driver(pbins[i], cases, ck.workdir, f"static2_{i}", nproc=max(2, vlib.NCPU // 3))
+        mism, st = vlib.validate_traces("TraceStatic", files)
+        ck.add_trace_stats(st, len(cases)); total += len(cases)
+        mism2, st2 = vlib.validate_traces("TraceOps", files)
+        ck.add_trace_stats(st2, 0)
+        seen = {m["event"].get("id") for m in mism}
+        for m in mism2:
+            if m["event"].get("id") not in seen:
+                m["why"] = "the object is not the view the reference semantics defines (shape or elements differ: clipped or mis-inferred result)"; mism.append(m)
+        for m in mism:
+            ev = m["event"]; res = ev.get("res", {})
+            if str(res.get("crash", "")).startswith("driver:"):
+                ck.extra["skipped_unsupported"] = ck.extra.get("skipped_unsupported", 0) + 1; continue
+            case = {k: v for k, v in ev.items() if k not in ("res", "e")}
+            kindf = "crash" if res.get("crash") else ("rejected" if not res.get("ok") else "unsound_or_clipped")
+            ck.mismatch(canon([case.get("op"), case.get("kinds"), case.get("shapes"), case.get("args"), kindf]), kindf, case, m["expect"],
+                        {k: res.get(k) for k in ("traits", "shape", "dim", "size", "eval_shape", "eval_traits", "crash", "ok")},
+                        what=f"{case.get('op')} ({case.get('args', {}).get('form')}) over leaves of kinds {case.get('kinds')}: {m['why']}", driver=os.path.basename(pbins[i]))
+    ck.extra["pair_cases"] = sum(len(v) for v in pairs.values())
     ck.checker_cmds.append("TRACE=<events> tlc -config spec/TraceStatic.cfg spec/TraceStatic.tla")
     ck.nontrivial_count = total
     ck.rule = ("view types = leaves of six static-knowledge kinds (constant shape, clipped shape, fixed dimension, bounded dimension, bounded size, dynamic) x programs of depth 1..2 over transpose, flatten, "
                "flip, sum, add, tile, expand_dims, reshape whose arguments are compile-time constants (so static knowledge propagates) or run-time values; for types with run-time freedom every run-time "
                "shape the leaf admits within its bound is instantiated (e.g. all nine shapes under a clipped (3,3) bound); per instance the five traits (fixed_shape, fixed_dim, fixed_size, bounded_dim, "
-               "bounded_size) of the view type and of the type eval() chose are checked for soundness against shape()/dim()/size(), and eval() must return every element (nothing clipped)")
+               "bounded_size) of the view type and of the type eval() chose are checked for soundness against shape()/dim()/size(), eval() must return every element, and the object must be the view the "
+               "reference semantics defines (TraceOps: shape and every element, i.e. nothing clipped); binary views (concatenate with run-time / compile-time / negative / None axis, add, stack) over every pair of "
+               "seven leaf kinds that compiles (277 of 294 combinations, table found by trial compilation) with every admitted pair of run-time shapes incl. sums that exceed one operand's bound")
     ck.exhaustive = not quick
     ck.assumptions += ["clipped-shape leaves compose only with flatten and reshape (every other view is a compile-time error in this version)", "depth-3 types are not generated (compile time)"]
     for i, cases in by_first.items():
@@ -90,6 +171,17 @@ def run(tier, seed):
 
 def replay(rec):
     case = dict(rec["case"]); case["id"] = 1
+    if "kinds" in case:
+        i = KINDS2.index(case["kinds"][0])
+        drv = vlib.build_driver("drv_static2", flags=(f"-DFIRST_KIND={i}", "-O0"), tag=f"_k{i}")
+        wd = os.path.join(vlib.BUILD, "replay"); os.makedirs(wd, exist_ok=True)
+        files = vlib.run_driver(drv, [case], wd, "replay", nproc=1)
+        m1, _ = vlib.validate_traces("TraceStatic", files); m2, _ = vlib.validate_traces("TraceOps", files)
+        ev = [json.loads(l) for l in open(files[0])][0]
+        print("case:", canon(case)); print("observed:", canon(ev.get("res"))[:800])
+        for m in m2: print("expected:", canon(m["expect"])[:400])
+        print("replay:", "mismatch reproduced on the current tree" if (m1 or m2) else "no mismatch on the current tree")
+        return 1 if (m1 or m2) else 0
     i = OPS.index(case["prog"][0]["op"])
     drv = vlib.build_driver("drv_static", flags=("-DMAXD=2", f"-DFIRST_IDX={i}", "-O0"), tag=f"_d2_{i}")
     wd = os.path.join(vlib.BUILD, "replay"); os.makedirs(wd, exist_ok=True)
